@@ -219,18 +219,22 @@ class BatchAxis:
         self.res = res
         self.root_key = root_key
         self.seen = set()
+        self.memo = {}
+        self.fresh = set()     # (fn, local): arrays created in the function itself (owned, standard layout)
         self.sites = 0
 
     def run(self, fn, batch_params, out_params, depth=0):
         sig = (id(fn), tuple(sorted(batch_params.items())))
-        if sig in self.seen or depth > 3:
-            return
+        if sig in self.seen or depth > 6:
+            return self.memo.get(sig)
         self.seen.add(sig)
         self.fn, self.c, self.r = fn, fn["crate"], Render(fn["crate"])
         env = dict(batch_params)
         self.out = set(out_params)
         self.depth = depth
-        self.visit(fn["body"], env)
+        a = self.visit(fn["body"], env)
+        self.memo[sig] = a if a in (0, 1) else None
+        return self.memo[sig]
 
     def report(self, kind, n, what):
         key = "%s : %s:%s" % (self.root_key, kind, fn_key(self.fn).split("::")[-1])
@@ -257,6 +261,9 @@ class BatchAxis:
             return self.ax(n["e"], env)
         if kk == "Binary":
             a, b = self.ax(n["l"], env), self.ax(n["r"], env)
+            if a == "count" or b == "count":
+                other = b if a == "count" else a
+                return other if other in (0, 1, "rows") else "count"
             return a if a is not None else b
         if kk == "Block":
             return self.visit(n, env)
@@ -269,6 +276,9 @@ class BatchAxis:
             if kk == "Index":
                 self.ax(n["i"], env)
             return None
+        if kk == "Tup":
+            axes = [self.ax(x, env) for x in n["es"]]
+            return next((v for v in axes if v in (0, 1)), None)
         if kk in ("Block", "Semi", "LetStmt", "Assign", "AssignOp", "If", "Match", "Loop", "Ret", "Break", "Struct", "Tup", "Array", "Let", "Closure"):
             self.visit(n, env)
             return None
@@ -280,6 +290,10 @@ class BatchAxis:
         name = n["name"]
         a = self.ax(n["recv"], env)
         argax = [self.ax(x, env) if strip(x).get("k") != "Closure" else None for x in n["args"]]
+        argax = [None if v == "count" else v for v in argax]
+        if a == "count":
+            # a row count of the batch is a scalar: arithmetic on it is not a batch operation
+            return "count" if name in ("max", "min", "clone", "into", "saturating_sub", "pow") else None
         self.sites += 1 if a is not None else 0
         if a is None:
             # batch passed as an argument: m.dot(x.t()) -> axis 1; Zip::from(..).and(x.rows())
@@ -288,9 +302,11 @@ class BatchAxis:
             for x in n["args"]:
                 if strip(x).get("k") == "Closure":
                     self.closure(strip(x), n, env, batch_iter=any(v is not None for v in argax) or self.iter_over_batch(n["recv"], env))
-            self.callee(n, [None] + argax, env)
-            return None
+            return self.callee(n, [None] + argax, env)
         if name in RAW_LAYOUT:
+            rv = peel_refs(n["recv"])
+            if rv.get("k") == "Path" and (id(self.fn), rv.get("local")) in self.fresh:
+                return None    # the raw buffer of an array this function allocated itself: its layout is the standard one
             self.report("layout", n, "raw-layout accessor `%s` on the batch: the result depends on the memory layout of the query rows" % name)
             return None
         if name in ("t", "reversed_axes", "permuted_axes_swap"):
@@ -334,6 +350,8 @@ class BatchAxis:
                 if strip(x).get("k") == "Closure":
                     self.closure(strip(x), n, env, batch_iter=False)
             return a
+        if name in ("nrows", "nsamples") and a == 0 or (name == "ncols" and a == 1) or (name == "len_of" and n["args"] and self.axis_lit(n["args"][0]) == a):
+            return "count"
         if name in ("nrows", "ncols", "len", "dim", "shape", "len_of", "raw_dim", "ndim", "is_empty", "nsamples", "nfeatures"):
             return None
         if name in ("slice", "slice_mut", "slice_move", "slice_axis", "select_rows_noop"):
@@ -342,9 +360,8 @@ class BatchAxis:
             par_ok = False
             self.report("reshape", n, "`%s` of a batch-carrying value re-interprets the memory order of the batch" % name)
             return None
-        # workspace callee taking the batch as receiver/argument
-        self.callee(n, [a] + argax, env)
-        return None
+        # workspace callee taking the batch as receiver/argument: its result carries the batch where its body's value does
+        return self.callee(n, [a] + argax, env)
 
     def iter_over_batch(self, n, env):
         for x in walk(n):
@@ -363,7 +380,21 @@ class BatchAxis:
         return None
 
     def call(self, n, env):
+        f0 = strip(n["f"])
+        d0 = self.c.dfn(f0.get("def")) if f0.get("k") == "Path" else None
+        if d0 and d0["name"] in ("zeros", "ones", "from_elem", "default", "uninit") and d0["krate"] == "ndarray" and n["args"]:
+            # a fresh array whose i-th extent is the batch's row count is indexed by the batch along axis i
+            shp = strip(n["args"][0])
+            els = shp["es"] if shp.get("k") == "Tup" else [shp]
+            axes = [self.ax(x, env) for x in els]
+            for x in n["args"][1:]:
+                self.ax(x, env)
+            for i, v in enumerate(axes):
+                if v == "count" and i in (0, 1):
+                    return i
+            return None
         argax = [self.ax(x, env) if strip(x).get("k") != "Closure" else None for x in n["args"]]
+        argax = [None if v == "count" else v for v in argax]
         for x in n["args"]:
             if strip(x).get("k") == "Closure":
                 self.closure(strip(x), n, env, batch_iter=any(v is not None for v in argax))
@@ -373,22 +404,24 @@ class BatchAxis:
             return argax[0] if argax else None
         if d and d["name"] in ("Some", "Ok", "from", "into"):
             return argax[0] if argax else None
-        self.callee(n, argax, env)
-        return None
+        return self.callee(n, argax, env)
 
     def callee(self, n, argax, env):
         if not any(v in (0, 1) for v in argax):
-            return
+            return None
         saved = (self.fn, self.c, self.r, self.out, self.depth)
+        out = None
         for g in find_callee_fns(self.F, self.c, n):
             params = {}
             for i, v in enumerate(argax):
                 if v in (0, 1) and i < len(g["params"]) and g["params"][i].get("k") == "Bind":
                     params[g["params"][i]["local"]] = v
             if params:
-                self.run(g, params, [], self.depth + 1)
+                a = self.run(g, params, [], self.depth + 1)
+                out = a if out is None else out
                 self.fn, self.c, self.r, self.out, self.depth = saved
         self.fn, self.c, self.r, self.out, self.depth = saved
+        return out
 
     def closure(self, clo, call, env, batch_iter):
         e2 = dict(env)
@@ -431,8 +464,17 @@ class BatchAxis:
             a = self.ax(n["init"], env) if n.get("init") is not None else None
             bs = list(pat_bindings(n["pat"]))
             if len(bs) == 1 and n["pat"].get("k") == "Bind":
+                ini = strip(n["init"]) if n.get("init") is not None else {}
+                if ini.get("k") == "Call":
+                    d1 = self.c.dfn(strip(ini["f"]).get("def")) if strip(ini["f"]).get("k") == "Path" else None
+                    if d1 and d1["krate"] == "ndarray" and d1["name"] in ("zeros", "ones", "from_elem", "default", "uninit"):
+                        self.fresh.add((id(self.fn), bs[0]["local"]))
                 if a is not None:
                     env[bs[0]["local"]] = a
+            elif a in (0, 1) and n["pat"].get("k") == "Tuple":
+                # a tuple of per-row results (e.g. (normaliser[n], responsibilities[n, k])): every part is indexed by the batch
+                for b in bs:
+                    env[b["local"]] = a
             return None
         if kk in ("Assign", "AssignOp"):
             a = self.ax(n["r"], env)
@@ -603,6 +645,34 @@ def rule_composite(ctx):
                             res.sample({"fn": key, "rule": "keep the pair with the larger probability: `%s`" % r.e(body)[:80]})
                         else:
                             res.violate("%s : argmax-direction" % key, "the running arg-max does not keep the (label, probability) pair with the larger probability: `%s`" % r.e(body)[:100], fn_loc(fn, body["ln"]))
+        if not found:
+            # second idiom: a loop that overwrites (label slot, incumbent probability slot) under `candidate > incumbent`
+            for n in walk(fn["body"]):
+                if n.get("k") != "If" or n.get("else"):
+                    continue
+                cond = strip(n["c"])
+                if cond.get("k") != "Binary" or cond["op"] not in (">", ">=", "<", "<="):
+                    continue
+                l, rr = peel_refs(cond["l"]), peel_refs(cond["r"])
+                if l.get("k") != "Path" or rr.get("k") != "Path" or "local" not in l or "local" not in rr:
+                    continue
+                big, small = (l, rr) if cond["op"] in (">", ">=") else (rr, l)
+                assigned = set()
+                for x in walk(n["then"]):
+                    if x.get("k") == "Assign":
+                        t = peel_refs(x["l"])
+                        if t.get("k") == "Path" and "local" in t:
+                            assigned.add(t["local"])
+                found = True
+                # `small` is the incumbent (it is the one that loses): it must be overwritten together with the label
+                if small["local"] in assigned and len(assigned) >= 2:
+                    res.ok()
+                    res.sample({"fn": key, "rule": "under `%s` both the label and the incumbent probability are replaced" % r.e(cond)})
+                elif small["local"] not in assigned and assigned:
+                    res.violate("%s : argmax-partial-update" % key, "under `%s` the label is replaced but the incumbent probability `%s` is not: later members are compared with a stale maximum" % (r.e(cond), small.get("name")), fn_loc(fn, n["ln"]))
+                else:
+                    res.violate("%s : argmax-direction" % key, "the running arg-max does not keep the pair with the larger probability: `%s`" % r.e(cond), fn_loc(fn, n["ln"]))
+                break
         if not found:
             res.violate("%s : argmax-not-found" % key, "running arg-max over (label, probability) pairs not found (fail closed)", fn_loc(fn))
     # MultiTargetModel: into_shape((models, n)) followed by reversed_axes
